@@ -1,35 +1,76 @@
 #!/usr/bin/env python3
 """Must-fail / must-pass mutant corpus: every property-breaking mutant must make its check report a
 VIOLATION naming the expected obligation; every harmless mutant must still verify.
-usage: selftest.py [name-substring ...]"""
-import json, subprocess, sys, os
+usage: selftest.py [-j N] [name-substring ...]
+
+The mutants are applied to scratch worktrees of /repo's HEAD under /tmp/st (one per worker) and checked
+with GOVC_REPO / GOVC_SCRATCH pointing there, so /repo, /verif/evidence and /verif/replays are not touched
+and other work can go on meanwhile. Uncommitted changes of /repo are NOT part of what is tested."""
+import json, subprocess, sys, os, shutil, threading, queue
 R = '/repo'
-muts = json.load(open('/verif/selftest/mutants.json'))
-sel = sys.argv[1:]
+args = sys.argv[1:]
+jobs = 3
+if args and args[0] == '-j':
+    jobs = int(args[1]); args = args[2:]
+sel = args
+muts = [m for m in json.load(open('/verif/selftest/mutants.json')) if not sel or any(s in m['name'] for s in sel)]
 if subprocess.run(['git', '-C', R, 'status', '--porcelain'], capture_output=True, text=True).stdout.strip():
-    print('REFUSING: /repo has uncommitted changes'); sys.exit(9)
-bad = 0
+    print('NOTE: /repo has uncommitted changes; the self-test runs on HEAD')
+jobs = max(1, min(jobs, len(muts)))
+base = '/tmp/st'
+os.makedirs(base, exist_ok=True)
+q = queue.Queue()
 for m in muts:
-    if sel and not any(s in m['name'] for s in sel):
-        continue
-    p = os.path.join(R, m['file'])
-    src = open(p).read()
-    if src.count(m['old']) != 1:
-        print(f"SKIP-BROKEN {m['name']}: pattern occurs {src.count(m['old'])} times"); bad += 1; continue
-    open(p, 'w').write(src.replace(m['old'], m['new']))
+    q.put(m)
+lock = threading.Lock()
+bad = [0]
+
+def worker(i):
+    wt, out = f'{base}/w{i}', f'{base}/o{i}'
+    subprocess.run(['git', '-C', R, 'worktree', 'remove', '--force', wt], capture_output=True)
+    shutil.rmtree(wt, ignore_errors=True); shutil.rmtree(out, ignore_errors=True)
+    r = subprocess.run(['git', '-C', R, 'worktree', 'add', '--detach', wt, 'HEAD'], capture_output=True, text=True)
+    if r.returncode != 0:
+        with lock:
+            print('cannot create worktree', wt, r.stderr[:200]); bad[0] += 1
+        return
+    os.makedirs(out, exist_ok=True)
+    env = dict(os.environ, GOVC_REPO=wt, GOVC_SCRATCH=out)
     try:
-        r = subprocess.run(['/verif/bin/govc', 'check', m['prop']], capture_output=True, text=True, cwd='/verif', timeout=1200)
+        while True:
+            try:
+                m = q.get_nowait()
+            except queue.Empty:
+                break
+            p = os.path.join(wt, m['file'])
+            src = open(p).read()
+            if src.count(m['old']) != 1:
+                with lock:
+                    print(f"SKIP-BROKEN {m['name']}: pattern occurs {src.count(m['old'])} times", flush=True); bad[0] += 1
+                continue
+            open(p, 'w').write(src.replace(m['old'], m['new']))
+            try:
+                r = subprocess.run(['/verif/bin/govc', 'check', m['prop']], capture_output=True, text=True, cwd='/verif', timeout=1800, env=env)
+            finally:
+                open(p, 'w').write(src)
+            viol = [l for l in r.stdout.splitlines() if l.startswith('VIOLATION') or l.startswith('TOOL-ERROR')]
+            if m['expect'] == '':
+                ok = r.returncode == 0 and not viol
+                kind = 'must-pass'
+            else:
+                ok = r.returncode == 1 and any(m['expect'] in l for l in viol)
+                kind = 'must-fail'
+            with lock:
+                print(('ok   ' if ok else 'FAIL ') + kind + ' ' + m['name'] + ('' if ok else f"  rc={r.returncode} " + ' | '.join(l[:160] for l in viol[:3]) + (r.stderr[-200:] if r.returncode not in (0, 1) else '')), flush=True)
+                if not ok:
+                    bad[0] += 1
     finally:
-        open(p, 'w').write(src)
-    viol = [l for l in r.stdout.splitlines() if l.startswith('VIOLATION') or l.startswith('TOOL-ERROR')]
-    if m['expect'] == '':
-        ok = r.returncode == 0 and not viol
-        kind = 'must-pass'
-    else:
-        ok = r.returncode == 1 and any(m['expect'] in l for l in viol)
-        kind = 'must-fail'
-    print(('ok   ' if ok else 'FAIL ') + kind + ' ' + m['name'] + ('' if ok else f"  rc={r.returncode} " + ' | '.join(l[:160] for l in viol[:3])))
-    if not ok:
-        bad += 1
-subprocess.run(['git', '-C', R, 'checkout', '--', '.'])
-sys.exit(1 if bad else 0)
+        subprocess.run(['git', '-C', R, 'worktree', 'remove', '--force', wt], capture_output=True)
+        shutil.rmtree(wt, ignore_errors=True); shutil.rmtree(out, ignore_errors=True)
+
+ts = [threading.Thread(target=worker, args=(i,)) for i in range(jobs)]
+for t in ts:
+    t.start()
+for t in ts:
+    t.join()
+sys.exit(1 if bad[0] else 0)
